@@ -35,8 +35,13 @@ def install(I):
     from interp import Unsupported, RawPtr, Loc, is_simd_type
     import values as V
 
+    def vec_len(ty):
+        if ty is not None and I.types[ty].get('size') in (8, 16):
+            return I.types[ty]['size']
+        return 16
+
     def topvec(ty, term=None):
-        return Vec(ty, [TOPB] * 16, term)
+        return Vec(ty, [TOPB] * vec_len(ty), term)
 
     def asvec(v, ty=None):
         if isinstance(v, Vec):
@@ -69,7 +74,7 @@ def install(I):
 
     def lanes16(v):
         out = []
-        for i in range(8):
+        for i in range(len(v.b) // 2):
             lo, hi = v.b[2 * i], v.b[2 * i + 1]
             if lo.const is not None and hi.const is not None:
                 out.append(cint(16, lo.const | (hi.const << 8)))
@@ -326,6 +331,36 @@ def install(I):
             a = asvec(args[0], None)
             l = lanes16(a)[imm & 7]
             return AInt(32, l.lo, l.hi, l.kz | 0xFFFF0000, l.ko, True, vt())
+        if short in ('vcreate_u8', 'vcreate_u16', 'vcreate_u32', 'vcreate_u64') and isinstance(args[0], AInt):
+            return Vec(rt, flatten_int(args[0]), vt())
+        if short.startswith('vcombine_'):
+            a, b = asvec(args[0], None), asvec(args[1], None)
+            return Vec(rt, list(a.b)[:8] + list(b.b)[:8], vt())
+        if short in ('vzip1q_u8', 'vzip2q_u8'):
+            a, b = asvec(args[0], rt), asvec(args[1], rt)
+            base = 0 if '1' in short[:5] else 8
+            out = []
+            for i in range(8):
+                out += [a.b[base + i], b.b[base + i]]
+            return Vec(rt, out, vt())
+        if short.startswith('vreinterpretq_') or short.startswith('vreinterpret_'):
+            a = asvec(args[0], rt)
+            return Vec(rt, a.b, a.term)
+        if short in ('vshlq_n_u16', 'vshrq_n_u16') and imm is not None:
+            a = asvec(args[0], rt)
+            ls = []
+            for l in lanes16(a):
+                r, _ = binop(I, 'Shl' if 'shl' in short else 'Shr', l, cint(32, imm), 16, False)
+                ls.append(r)
+            return Vec(rt, from_lanes16(rt, ls).b, vt())
+        if short == 'vgetq_lane_u16' and imm is not None:
+            a = asvec(args[0], None)
+            l = lanes16(a)[imm & 7]
+            return AInt(16, l.lo, l.hi, l.kz, l.ko, False, vt())
+        if short == 'vgetq_lane_u8' and imm is not None:
+            a = asvec(args[0], None)
+            x = a.b[imm & 15]
+            return AInt(8, x.lo, x.hi, x.kz, x.ko, False, vt())
         if short.startswith('_mm_cvtsi128_si'):
             w = 64 if '64' in short else 32
             return topint(w, True, vt())
@@ -340,7 +375,7 @@ def install(I):
         if d is not None and d.get('size') == 0:
             return I.zst(rt)
         from interp import is_simd_type
-        if d is not None and d.get('size') == 16 and is_simd_type(d):
+        if d is not None and d.get('size') in (8, 16) and is_simd_type(d):
             return topvec(rt, vt())
         if d is not None and d['k'] in ('adt', 'tuple', 'array'):
             return I.top(rt)
